@@ -356,11 +356,20 @@ func TestC04_CLI(t *testing.T) {
 			opt.AllPlatforms = true
 		}
 		args = append(args, "--", q)
-		r := runWtf(h, dir, args)
+		// the platforms in force are the ones asked for, otherwise the host operating system - whatever else
+		// the process environment holds (a WSL session's variables, locale, terminal, unknown WTF_* settings)
+		var henv []string
+		if rapid.Bool().Draw(t, "odd-environment") {
+			henv = gen.HostileEnv(t, fmt.Sprint(len(cmds)))
+		}
+		r := runWtf(h, dir, args, henv...)
 		if r.Panicked() || r.TimedOut {
 			t.Fatalf("wtf crashed: %+v", r)
 		}
 		labels := []string{"cli"}
+		if henv != nil {
+			labels = append(labels, "cli-odd-environment")
+		}
 		if strings.Contains(r.Stdout, "Warning: Search had issues") {
 			// last-resort recovery search: not one of the paths the statement lists
 			rec.Case(false, map[string]any{"argv": args, "skipped": "recovery path"}, "cli", "cli-recovery-skipped")
@@ -376,7 +385,7 @@ func TestC04_CLI(t *testing.T) {
 		for _, it := range items {
 			c := database.Command{Command: it.Command, Platform: it.Platforms}
 			if ref.PlatformViolation(&c, opt, c04Host(), c04IsTool) {
-				t.Fatalf("wtf %q printed %q platforms=%v, not eligible under the flags\n db=%v", args, it.Command, it.Platforms, gen.BriefDB(cmds, 14))
+				t.Fatalf("wtf %q (extra environment %q) printed %q platforms=%v, not eligible under the flags\n db=%v", args, henv, it.Command, it.Platforms, gen.BriefDB(cmds, 14))
 			}
 		}
 		nontrivial := false
